@@ -1246,10 +1246,12 @@ func (s Subtitles) WriteToSSA(o io.Writer) (err error) {
 			b = append(b, []byte("Style: "+styles[n].string(format)+"\n")...)
 		}
 
-		// Write
-		if _, err = o.Write(b); err != nil {
-			err = fmt.Errorf("astisub: writing styles block failed: %w", err)
-			return
+		// Write, unless no entry of the map held a style
+		if len(styleNames) > 0 {
+			if _, err = o.Write(b); err != nil {
+				err = fmt.Errorf("astisub: writing styles block failed: %w", err)
+				return
+			}
 		}
 	}
 
